@@ -186,7 +186,11 @@ func c11Prop(st *CaseStats, fam int) func(t *rapid.T) {
 		}
 		// public Merger.WriteTo
 		if rapid.IntRange(0, 2).Draw(t, "publicMerge") == 0 {
-			pb, _, err := PublicMerge([]segment.Segment{c.Seg, mem}, []*roaring.Bitmap{GenDrops(t, c.Exp.N, "pm"), nil}, rapid.SampledFrom([]int{0, 1, 64}).Draw(t, "buf"))
+			pmIn, pmDr := []segment.Segment{c.Seg, mem}, []*roaring.Bitmap{GenDrops(t, c.Exp.N, "pm"), nil}
+			if rapid.Bool().Draw(t, "singleInputMerge") {
+				pmIn, pmDr = pmIn[:1], []*roaring.Bitmap{rapid.SampledFrom([]*roaring.Bitmap{nil, roaring.New(), pmDr[0]}).Draw(t, "singleDrops")}
+			}
+			pb, _, err := PublicMerge(pmIn, pmDr, rapid.SampledFrom([]int{0, 1, 44, 64, 1024, 4095, 4096, 1 << 20}).Draw(t, "buf"))
 			if err != nil {
 				t.Fatalf("%s: public merge: %v", desc, err)
 			}
